@@ -167,7 +167,7 @@ func HarnessC07Request() {
 	var body []byte
 	if hostileHeaders {
 		enc = []string{"", "identity", "gzip", "zz"}[nondetChoice("encoding", 4)]
-		timeout = nondetString("timeout", bound("timeoutLen", 2, 3))
+		timeout = nondetString("timeout", bound("timeoutLen", 3, 3))
 		body = []byte{0x41}
 		if !unaryConnect {
 			body = refFrame(0, []byte{0x41})
@@ -226,11 +226,18 @@ func HarnessC07Request() {
 			num := timeout[:len(timeout)-1]
 			timeoutValid = okUnit && num != "" && allDigits(num)
 			if !timeoutValid && okUnit && len(num) > 1 && (num[0] == '+' || num[0] == '-') && allDigits(num[1:]) {
-				return // "+5S", "-0u": a leading sign is not classified by the property (see C10)
+				// "+5S", "-0u": a redundant sign on a non-negative value is not
+				// classified by the property (see C10); a negative timeout
+				// ("-5S") is invalid and stays classified
+				if num[0] == '+' || allZeros(num[1:]) {
+					return
+				}
 			}
 		}
 		if proto == 0 && !timeoutValid && len(timeout) > 1 && (timeout[0] == '+' || timeout[0] == '-') && allDigits(timeout[1:]) {
-			return // signed milliseconds: not classified by the property
+			if timeout[0] == '+' || allZeros(timeout[1:]) {
+				return // redundantly signed milliseconds: not classified by the property
+			}
 		}
 	}
 	switch {
@@ -370,4 +377,13 @@ func indexOf(s, sub string) int {
 		}
 	}
 	return -1
+}
+
+func allZeros(s string) bool {
+	for i := 0; i < len(s); i++ {
+		if s[i] != '0' {
+			return false
+		}
+	}
+	return true
 }
